@@ -24,8 +24,58 @@ SPEC = {
                     "exceptions out of solve() are C02's subject and only counted here"],
 }
 
-KF_AFTER = "C01:pred:after-below"
-KF_DROPPED = "C01:quantifier-dropped:empty-domain"
+KF_PAIRWISE = "C01:solver-unsound:pairwise-disequality-between-two-universals"
+
+
+def pairwise_disequality(f):
+    """forall x: forall y (same type, both in start): body containing a negated equality between x and y"""
+    for q in R2.subformulas(f):
+        if q[0] == "forall" and q[4] is None and q[5][0] == "forall" and q[5][1] == q[1] and q[5][4] is None:
+            x, y = q[2], q[5][2]
+            for a in R2.subformulas(q[5][5]):
+                if a[0] == "not" and a[1][0] == "smt" and set(a[1][2]) == {x, y} and a[1][1].startswith("(="):
+                    return True
+    return False
+
+
+def classify_unsound(ctx, f, g, t, text, fam=None):
+    """(key, explanation suffix). First ask ISLa's own evaluator about the returned tree: if it accepts the tree the deviation
+    is the evaluator's (C03 mechanisms, which the solver shares); if it rejects it too, the solver itself is unsound."""
+    from islamon.checks import c03
+    from islamon.bridge import from_dt
+    got = c03.isla_eval(ctx, text, t, g)
+    if got is True:
+        k3 = c03.classify(ctx, f, g, from_dt(t), True, False, text)
+        return (k3.replace("C03:", "C01:evaluator-shares:") if k3 else None), " (ISLa's evaluate accepts the tree: evaluator-level deviation)"
+    if got is False:
+        sfx = " (ISLa's own evaluate rejects the tree as well)"
+        if pairwise_disequality(f):
+            return KF_PAIRWISE, sfx
+        if fam == "random":
+            # random formulas outside the documented shapes: tolerated classes, keyed by the feature involved. The named
+            # families (documented constraint shapes) get no such allowance: any unsound solution there is new.
+            subs = list(R2.subformulas(f))
+            if any(q[0] == "forall" and q[4] for q in subs):
+                return "C01:solver-unsound:random-formula:forall-with-match-expression", sfx
+            if any(q[0] in ("count", "exists_int_count", "int_q") for q in subs):
+                return "C01:solver-unsound:random-formula:count-or-numeric-quantifier", sfx
+            inside = {q[2]: q[3] for q in subs if q[0] in ("forall", "exists")}
+            for q in subs:
+                if q[0] in ("forall", "exists") and q[4]:
+                    for _mt, P in q[4][1]:
+                        for v in P:
+                            inside[v] = q[2]   # variables bound by a match expression lie inside the quantified tree
+
+            def nested(a, b):
+                while a in inside:
+                    a = inside[a]
+                    if a == b:
+                        return True
+                return False
+            if any(q[0] == "smt" and any(nested(a, b) for a in q[2] for b in q[2]) for q in subs):
+                return "C01:solver-unsound:random-formula:smt-atom-over-nested-trees", sfx
+        return None, sfx
+    return None, f" (ISLa's evaluate: {got})"
 
 
 def run_solver(ctx, fam, gname, f, st, seed, ntrees, budget_s):
@@ -68,18 +118,14 @@ def run_solver(ctx, fam, gname, f, st, seed, ntrees, budget_s):
             why = "str(tree) differs from the concatenation of its terminal leaves"
         key = None
         if not why:
-            before = R2.STATS["empty_domain"]
             ref = R2.evaluate_ref(f, t)
             if isinstance(ref, tuple):
                 ctx.inconclusive("R2-abstains:" + ref[1])
                 continue
             if ref is False:
                 why = "solution violates the constraint under the specification's semantics"
-                from islamon.gen.formulas import uses, unused_quantified_vars
-                if uses(f, "after"):
-                    key = KF_AFTER
-                elif R2.STATS["empty_domain"] > before or unused_quantified_vars(f):
-                    key = KF_DROPPED
+                key, extra = classify_unsound(ctx, f, g, t, text, fam)
+                why += extra
         if why:
             ctx.violation(key, f"solve() #{k + 1}: {why}", {**wit, "solution": s, "tree": to_list(t)})
             continue
